@@ -582,6 +582,42 @@ func c16Isolation(c *c16Case, env *fw.Env, v *fw.V) {
 		}
 	}
 	v.Add("values", 6)
+	// the same option values reused for two instances (and for an instance without
+	// any initial variables) must not make them share state either
+	shared := []bpmn.Option{bpmn.WithVariables(map[string]any{"n": 7, "who": "initial"})}
+	sharedObj := []bpmn.Option{bpmn.WithDataObjects(map[string]any{"d": map[string]any{"who": "shared"}}), bpmn.WithVariables(map[string]any{"n": 7})}
+	for name, ro := range map[string][]bpmn.Option{"same-WithVariables-option": shared, "same-WithDataObjects+WithVariables-options": sharedObj, "no-options": nil} {
+		c1, e1 := drive.New(env.Label, defs, drive.Opts{RawOptions: ro})
+		c2, e2 := drive.New(env.Label, defs, drive.Opts{RawOptions: ro})
+		if e1 != nil || e2 != nil {
+			v.Violate("new-process-error", "isolation", "%v %v", e1, e2)
+			return
+		}
+		c1.Start()
+		c1.Quiesce(step.Watchdog)
+		for _, r := range c1.Pending() {
+			c1.Answer(r, bpmn.DoWithResults(map[string]any{"x": 100, "y": 101}))
+		}
+		c1.Quiesce(step.Watchdog)
+		c1.Proc.Locator().SetVariable("n", 99)
+		c1.Proc.Locator().SetVariable("extra", "from-1")
+		v2 := c2.Vars()
+		if _, ok := v2["x"]; ok {
+			v.Violate("not-isolated", name, "second instance sees result x written by the first instance's task")
+		}
+		if _, ok := v2["extra"]; ok {
+			v.Violate("not-isolated", name, "second instance sees a variable set on the first instance")
+		}
+		if n, ok := v2["n"]; ok && fmt.Sprint(n) == "99" {
+			v.Violate("not-isolated", name, "second instance's variable n changed to 99 by the first instance")
+		}
+		if c1.Proc.Locator() == c2.Proc.Locator() {
+			v.Violate("not-isolated", name, "both instances use the same locator object")
+		}
+		c1.Cancel()
+		c2.Cancel()
+		v.Add("values", 3)
+	}
 }
 
 func c16Cases(tier string, seed uint64) []fw.Case {
